@@ -110,8 +110,9 @@ def discharge(spec, workroot, keep=False, extra_cbmc=None, trace_props=None, sol
         res["status"] = "tool-error"
         res["reason"] = "goto-instrument failed:\n" + out[-2500:]
         return res
-    flags = [f for f in CBMC_FLAGS if not ('no-pointer-overflow-check' in spec.flags and f == '--pointer-overflow-check')
-             and not ('no-conversion-check' in spec.flags and f == '--conversion-check')]
+    sflags = set(spec.flags) | set(getattr(load_unit(spec.unit), 'flags', []))
+    flags = [f for f in CBMC_FLAGS if not ('no-pointer-overflow-check' in sflags and f == '--pointer-overflow-check')
+             and not ('no-conversion-check' in sflags and f == '--conversion-check')]
     cbmc = ['cbmc', 'b.gb', '--object-bits', OBJECT_BITS] + flags + ['--json-ui']
     if spec.bounded:
         m = re.match(r'unwind\s+(\d+)', spec.bounded)
